@@ -130,6 +130,101 @@ reg(["C01"], H("d9::d_v9_zero_size_template", unwind=4, timeout=1200, mem_gb=10,
     bounds={"body_bytes": 3, "fields": "0..=1"}, assumptions=[_K9]))
 
 
+# ---------------------------------------------------------------- W: parse_bytes
+_W = "V5Parser/V7Parser/V9Parser/IPFixParser::parse replaced by models exact on the domain 'header-only packets' (V5/V7/V9 count == 0, IPFIX length == 16); the models assume that domain"
+for _n, _tier, _to in ((40, "quick", 1800), (50, "thorough", 3600)):
+    reg(["C02", "C11", "C12", "C14", "C06", "C01"], H("w::w_decompose_%d" % _n, unwind=6, loops=[("w::rest", 66)], timeout=_to, mem_gb=30, tier=_tier,
+        desc="parse_bytes == reference decomposition: packets in order, at most one final Error whose remaining is the exact suffix from the version field, silent stop only at a disallowed version, unknown allowed version => UnknownVersion, caches untouched",
+        bounds={"buffer_bytes": "0..=%d (symbolic length)" % _n, "chained_packets": "<=%d" % (2 if _n == 40 else 3), "allowed_versions": "3 symbolic u16", "versions": "symbolic"},
+        assumptions=[_W]))
+reg(["C02"], H("w::w_empty", unwind=5, timeout=300, mem_gb=4,
+    desc="parse_bytes(&[]) == [] for every allowed set", bounds={"allowed_versions": "3 symbolic u16"}))
+
+
+# ---------------------------------------------------------------- S/T/D: IPFIX
+_D10 = "ipfix::Data::parse / OptionsData::parse replaced by models exact on the harness domain (every cached field fixed-length >= 8, body <= 7 bytes => first field read fails => Err)"
+reg(["C05", "C06", "C01"], H("s10::s_ipfix_template", unwind=5, timeout=1500, mem_gb=12,
+    desc="ipfix::FlowSet::parse, template set with one record (<=2 plain/enterprise specifiers, <=3 padding bytes) vs symbolic one-entry cache: record as sent incl. enterprise numbers, padding, cache post-state; refused set leaves cache unchanged",
+    bounds={"body_bytes": "<=20 (symbolic length)", "records": 1, "fields": "<=2", "cached_templates": 1}))
+reg(["C05"], H("s10::s_ipfix_template_two_records_kf", unwind=5, timeout=900, mem_gb=8, expect="fail", finding="C05-multi-record-template-set",
+    desc="finding witness: template set with two records", bounds={"records": 2}))
+reg(["C06"], H("s10::s_ipfix_template_short_record_kf", unwind=5, timeout=900, mem_gb=8, expect="fail", finding="C06-ipfix-truncated-template-cached",
+    desc="finding witness: template record announcing more specifiers than present is cached", bounds={"field_count": 2, "specifiers_present": 1}))
+reg(["C05", "C06", "C01"], H("s10::s_ipfix_options_template", unwind=5, timeout=1500, mem_gb=12,
+    desc="ipfix::FlowSet::parse, options-template set with one record (<=2 specifiers): record as sent, cached",
+    bounds={"body_bytes": "<=20 (symbolic length)", "fields": "<=2", "scope_count": "<= field_count"}))
+reg(["C06", "C07", "C01"], H("s10::s_ipfix_data_dispatch", unwind=5, timeout=1200, mem_gb=10,
+    desc="ipfix::FlowSet::parse, data set id 300 vs symbolic cached ids: unknown id never reaches a decoder, caches unchanged",
+    bounds={"body_bytes": "<=7", "cached": "1 template + 1 options template, symbolic ids"}, assumptions=[_D10]))
+reg(["C05", "C01"], H("d10::d_ipfix_two_fields", unwind=4, timeout=2400, mem_gb=30, tier="thorough",
+    desc="ipfix::Data::parse, 2 unsigned fields with symbolic fixed lengths 0..=5: flattened (index,type,value) sequence, record count, padding bytes; unsupported width => Err",
+    bounds={"body_bytes": 7, "fields": 2, "declared_lengths": "0..=5 each, sum >= 3", "records": "<=2"}, assumptions=[_K9]))
+reg(["C05", "C01"], H("d10::d_ipfix_three_records", unwind=5, timeout=2400, mem_gb=30,
+    desc="ipfix::Data::parse, one 2-byte field, 7-byte body: 3 records (recursion depth 4) + 1 padding byte",
+    bounds={"body_bytes": 7, "fields": 1, "records": 3}, assumptions=[_K9]))
+reg(["C05", "C01"], H("d10::d_ipfix_varlen_one_record", unwind=5, timeout=2400, mem_gb=30,
+    desc="ipfix::Data::parse, variable-length field (1-byte and 255+2-byte prefix) + 1-byte field, one record",
+    bounds={"body_bytes": "<=8", "varlen_value_bytes": "1..=4"}, assumptions=[_K9]))
+reg(["C05"], H("d10::d_ipfix_varlen_second_shorter_kf", unwind=5, timeout=1200, mem_gb=12, expect="fail", finding="C05-varlen-short-record-dropped",
+    desc="finding witness: second variable-length record shorter than the first is reported as padding", bounds={"body_bytes": 5}, assumptions=[_K9]))
+
+
+# ---------------------------------------------------------------- P: packets
+_S9 = "v9::FlowSet::parse replaced by a model exact on the domain 'empty caches; flowset id 0/1 with body < 4 bytes (no record fits, body = padding); other ids unknown => Err'; the model assumes that domain"
+_S10 = "ipfix::FlowSet::parse replaced by a model exact on the domain 'set id 2, length 12, one plain specifier with non-zero length (cached)' or 'set id > 255 unknown to the caches => Err'; the model assumes that domain"
+reg(["C02", "C04", "C07", "C11", "C14", "C01"], H("p::p_v9_packet", unwind=5, timeout=2400, mem_gb=30,
+    desc="V9::parse: header as sent, first `count` flowsets (or until the buffer ends), consumed = 20 + sum(max(length,4)), any failing flowset (unknown id, truncated) fails the packet",
+    bounds={"bytes": 36, "count": "<=3 (symbolic)", "flowset_lengths": "symbolic"}, assumptions=[_S9]))
+reg(["C02", "C05", "C07", "C11", "C14", "C01"], H("p::p_ipfix_message", unwind=5, timeout=2400, mem_gb=30,
+    desc="IPFix::parse: header as sent, window = max(length,16)-16, decodable sets reported in order, undecodable set omitted, length beyond buffer => Err before anything is learned",
+    bounds={"bytes": 44, "sets": "<=3", "length": "all u16"}, assumptions=[_S10, "remainder of C05-sets-after-undecodable-dropped: no decodable set follows an undecodable one"]))
+reg(["C05"], H("p::p_ipfix_sets_after_skipped_kf", unwind=5, timeout=2400, mem_gb=30, expect="fail", finding="C05-sets-after-undecodable-dropped",
+    desc="finding witness: a decodable set after an undecodable one is dropped", bounds={"bytes": 44}, assumptions=[_S10]))
+
+
+# ---------------------------------------------------------------- serializers (C09, C10)
+reg(["C09", "C01"], H("ser::ser_v9_template", unwind=5, timeout=1500, mem_gb=12,
+    desc="V9: to_be_bytes(header + FlowSet::parse(template flowset)) == header bytes || flowset bytes incl. padding",
+    bounds={"body_bytes": "<=12 (symbolic length)", "records": "<=3"}))
+reg(["C09", "C01"], H("ser::ser_v9_options_template", unwind=5, timeout=1500, mem_gb=12, tier="thorough",
+    desc="V9: options-template flowset re-export == input incl. padding", bounds={"body_bytes": "<=14"},
+    assumptions=["scope/option lengths are multiples of 4 (RFC 3954)"]))
+reg(["C09", "C01"], H("ser::ser_v9_data", unwind=9, timeout=2400, mem_gb=30,
+    desc="V9: data flowset (1 unsigned field of 2..4 bytes, 7-byte body => 1..3 records + padding) re-export == input incl. padding",
+    bounds={"body_bytes": 7, "field_length": "2..=4"}, assumptions=[_K9]))
+reg(["C09", "C01"], H("ser::ser_v9_options_data", unwind=9, timeout=2400, mem_gb=30, tier="thorough",
+    desc="V9: options-data flowset (1 scope + 1 option field, padding) re-export == input", bounds={"body_bytes": 6}))
+reg(["C10", "C01"], H("ser::ser_ipfix_template_plain", unwind=5, timeout=1500, mem_gb=12,
+    desc="IPFIX: template set (1 record, <=2 plain specifiers, padding) re-export == input",
+    bounds={"set_bytes": "<=23"}))
+reg(["C10"], H("ser::ser_ipfix_template_enterprise_kf", unwind=5, timeout=1500, mem_gb=12, expect="fail", finding="C10-enterprise-bit",
+    desc="finding witness: enterprise specifier re-exported without the E bit", bounds={"set_bytes": "<=23"}))
+reg(["C10", "C01"], H("ser::ser_ipfix_data", unwind=9, timeout=2400, mem_gb=30,
+    desc="IPFIX: data set (1 unsigned field of 2..4 bytes, 7-byte body) re-export == input incl. padding",
+    bounds={"body_bytes": 7}, assumptions=[_K9]))
+reg(["C10"], H("ser::ser_ipfix_varlen_kf", unwind=9, timeout=1500, mem_gb=12, expect="fail", finding="C10-varlen-prefix",
+    desc="finding witness: variable-length prefix not re-exported", bounds={"body_bytes": 3}, assumptions=[_K9]))
+
+
+# ---------------------------------------------------------------- common view (C13)
+_SHAPE = "input structures have the shape the K/D layers are shown to produce (variant per data type; V9 one map per record, IPFIX one single-entry map per field)"
+reg(["C13", "C01"], H("cv::cv_v9_addr_ports", unwind=6, timeout=1500, mem_gb=12,
+    desc="V9 common view: 1..2 records with IPv4/IPv6 source, optional IPv4 destination and ports in symbolic field order: one flow per record in order, present fields equal, absent None",
+    bounds={"records": "1..=2", "fields": "<=4"}, assumptions=[_SHAPE]))
+reg(["C13"], H("cv::cv_v9_mac", unwind=8, timeout=900, mem_gb=8, tier="thorough",
+    desc="V9 common view: MAC text projected", bounds={"records": 1}, assumptions=[_SHAPE]))
+reg(["C13"], H("cv::cv_v9_protocol_times_kf", unwind=6, timeout=900, mem_gb=8, expect="fail", finding="C13-v9-protocol-times",
+    desc="finding witness: V9 protocol / first-switched present but projected as None", bounds={"records": 1}, assumptions=[_SHAPE]))
+reg(["C13", "C01"], H("cv::cv_ipfix_single_field", unwind=6, timeout=1500, mem_gb=12,
+    desc="IPFIX common view, single-field templates: one flow per record in order, the field projected, others None",
+    bounds={"records": "1..=2", "field": "one of 5 projected kinds"}, assumptions=[_SHAPE]))
+reg(["C13"], H("cv::cv_ipfix_two_fields_kf", unwind=6, timeout=900, mem_gb=8, expect="fail", finding="C13-ipfix-flow-per-field",
+    desc="finding witness: a two-field IPFIX record yields two flows", bounds={"records": 1, "fields": 2}, assumptions=[_SHAPE]))
+reg(["C13", "C01"], H("cv::cv_flowsets_concat", unwind=4, timeout=2400, mem_gb=30, tier="thorough",
+    desc="parse_bytes_as_netflow_common_flowsets on V5(count 1) + V7(count 0) + stray byte: exactly the V5 record's flow, error contributes nothing (real decoders, versions/counts written)",
+    bounds={"bytes": 97, "structure": "written", "values": "symbolic"}))
+
+
 def all_harnesses():
     return list(_ALL)
 
